@@ -263,6 +263,16 @@ func (c *corruptor) txlist() {
 	tl("add-underfunded", app(st.poorBig), "resigned")
 	tl("add-poor-one(valid)", app(st.poor1), "resigned")
 	tl("add-poor-two-exceed", app(st.poor1, st.poor2), "resigned")
+	if st.stale != nil {
+		// the transaction pooled before the tip block changed its validity (still pooled or evicted by RemoveStale)
+		tl("add-stale-pooled", app(st.stale), "resigned")
+		tl("prepend-stale-pooled", func(t []*transaction.Transaction) []*transaction.Transaction {
+			return append([]*transaction.Transaction{st.stale}, t...)
+		}, "resigned")
+		tl("only-stale-pooled", func(t []*transaction.Transaction) []*transaction.Transaction {
+			return []*transaction.Transaction{st.stale}
+		}, "resigned")
+	}
 	tl("prepend-expired", func(t []*transaction.Transaction) []*transaction.Transaction {
 		return append([]*transaction.Transaction{st.expired}, t...)
 	}, "resigned")
@@ -328,6 +338,7 @@ func (c *corruptor) control() {
 }
 
 func corruptions(st *state, r *prng.R) []cand {
+	st.useState()
 	c := &corruptor{st: st, r: r}
 	c.control()
 	c.header()
